@@ -245,8 +245,10 @@ CLAIMS.update({
         text="Theorems: the Drop loop (its break/continue shape is translated from the source on every run) visits every allocated bucket wherever it sits (repair of F12, with the "
              "decided witness for the old loop); entries are only ever marked active inside an allocated bucket, for every sequential history of pushes and batches (honest or "
              "lying, with panicking callbacks); dropping the vector therefore drops every published item, each read off one entry (at most once); a panicking callback's item is "
-             "dropped by unwinding and its entry never becomes active; a batch partitions its items into written and unwound ones. 'Only after it is unreachable' uses the reference "
-             "count of C20: in the correspondence run the destroyed items after every event of every Nucleo history must be exactly those of streams with zero handles.",
+             "dropped by unwinding and its entry never becomes active; a batch partitions its items into written and unwound ones. 'Only after it is unreachable', over every history of injector/clone/drop/reparse/restart/tick events "
+             "(companion file C11_Handles): no event creates a handle to a stream nobody holds, every handle points at a created stream with a positive count, and a stream whose "
+             "count reached zero keeps count zero after every continuation (no second drop, no access after the drop). In the correspondence run the destroyed items after every "
+             "event of every Nucleo history must be exactly those of streams with zero handles, and an item the snapshot lists must not have been dropped.",
         note="Trusted: Lean kernel, axioms propext/Classical.choice/Quot.sound, translator (Drop/dealloc shape), harness (per-item drop counters, counting global allocator) + driver. "
              "Arc, unwinding and the allocator are modelled, not verified; concurrency of the vector itself is C08."),
     "C18": dict(
